@@ -21,17 +21,23 @@ type Doc struct {
 	Svcs []Entry
 	AKA  []string
 	Note string
+	// Tags: a free-form top-level list of strings (written and rearranged through ietf-json-patch)
+	Tags []string
 }
 
 // Clone copies the document.
 func (d Doc) Clone() Doc {
-	return Doc{Keys: append([]Entry(nil), d.Keys...), Svcs: append([]Entry(nil), d.Svcs...), AKA: append([]string(nil), d.AKA...), Note: d.Note}
+	return Doc{Keys: append([]Entry(nil), d.Keys...), Svcs: append([]Entry(nil), d.Svcs...), AKA: append([]string(nil), d.AKA...), Note: d.Note, Tags: append([]string(nil), d.Tags...)}
 }
 
 func (d Doc) String() string {
 	note := d.Note
 	if len(note) > 24 {
 		note = fmt.Sprintf("%s…(%d chars)", note[:8], len(note))
+	}
+
+	if len(d.Tags) > 0 {
+		return fmt.Sprintf("keys=%v svcs=%v aka=%v note=%q tags=%q", d.Keys, d.Svcs, d.AKA, note, d.Tags)
 	}
 
 	return fmt.Sprintf("keys=%v svcs=%v aka=%v note=%q", d.Keys, d.Svcs, d.AKA, note)
@@ -92,6 +98,15 @@ func (d Doc) Apply(ps []workload.PatchDesc) (Doc, bool) {
 			r.Note = p.Mark
 		case workload.FailTest:
 			return d, false
+		case workload.AddTags:
+			r.Tags = append([]string(nil), p.IDs...)
+		case workload.MoveNoteIntoTags:
+			if r.Note == "" || len(r.Tags) < 1 {
+				return d, false
+			}
+
+			r.Tags = append(append(append([]string(nil), r.Tags[0]), r.Note), r.Tags[1:]...)
+			r.Note = ""
 		case workload.ReplaceNote:
 			// test /note == IDs[0], then replace: fails unless the note is present with exactly that value
 			if r.Note == "" || len(p.IDs) == 0 || r.Note != p.IDs[0] {
